@@ -127,6 +127,10 @@ def cases(desc):
         for v in variants:
             c = dict(v, n=n, seed=rng.randint(0, 1 << 30))
             c["mux"] = list(rng.choice(MUXES)) if rng.random() < 0.7 else [rng.randint(1, 0xFFFF), rng.randint(0, 255)]
+            while 0x2001 <= c["mux"][0] <= 0x21FF:
+                # these indexes are declared (typed) in the client's dictionary: uploads there are truncated to the
+                # declared width, which is what the "upload-declared" path checks on purpose
+                c["mux"][0] = rng.randint(1, 0xFFFF)
             out.append(c)
     rng.shuffle(out)
     return out
